@@ -284,12 +284,23 @@ def direct(fn):
   return fn
 
 
+def _guarded_clause(fn, *args):
+  """Runs a natively executed clause (@direct / trace_).  A clause that cannot
+  be evaluated because the code under check no longer has the shape the clause
+  was written for (missing field, different kind of value) is *undecided* for
+  this tree -- neither an engine crash nor a verdict."""
+  try:
+    return fn(*args)
+  except (AttributeError, KeyError, TypeError, IndexError, z3.Z3Exception) as e:
+    raise I.Unsupported(f'contract clause {getattr(fn, "__name__", fn)} not evaluable on this code shape: {e!r}')
+
+
 def call_clause(interp, fn, kwargs):
   """Interprets a clause symbolically (spec mode) with keyword arguments
   restricted to the clause's own parameters."""
   f, self_ = clause_closure(fn)
   if getattr(f, '_pyvc_direct', False):
-    r = fn(interp, _rename_self(kwargs))
+    r = _guarded_clause(fn, interp, _rename_self(kwargs))
     if isinstance(r, (z3.BoolRef,)):
       return SBool(r)
     return r
@@ -557,7 +568,7 @@ def run_contract(contract, xcheck=True, goal_timeout_ms=8000):
         z = interp.truth_z(r)
         ex.check_goal(path, contract.oblig('POST', cname), z)
       for cname, fn in contract.clauses('trace_'):
-        ok = fn(path.events, outcome, interp, env)
+        ok = _guarded_clause(fn, path.events, outcome, interp, env)
         ex.check_goal(path, contract.oblig('TRACE', cname), _zb(ok),
                       info=_events_info(path.events))
     else:
@@ -579,7 +590,7 @@ def run_contract(contract, xcheck=True, goal_timeout_ms=8000):
             r = call_clause(interp, fn, env)
             ex.check_goal(path, contract.oblig('EXC', cname), interp.truth_z(r))
       for cname, fn in contract.clauses('trace_'):
-        ok = fn(path.events, outcome, interp, env)
+        ok = _guarded_clause(fn, path.events, outcome, interp, env)
         ex.check_goal(path, contract.oblig('TRACE', cname), _zb(ok),
                       info=_events_info(path.events))
       if not matched:
@@ -723,8 +734,17 @@ class CMContract(Contract):
     obj, _ = frontend.resolve(mod, qn)
     return obj
 
+  def between_creation_and_entry(self, interp, env):
+    """Hook: a manager object may be created now and entered later, after
+    other (well-nested) scopes have come and gone.  Contracts whose state
+    model supports it havoc that state here; "the state before entering" (the
+    `old` snapshot and the model's own initial snapshot) is then re-taken."""
+    return False
+
   def drive(self, interp, pyf, args, env, check):
     cm = self.make_cm(interp, pyf, args)
+    if self.between_creation_and_entry(interp, env) and getattr(self, 'old', None) is not None:
+      env['old'] = call_clause(interp, self.old, env)
     entered, exit_fn = interp.enter_cm(cm, None)
     env['entered'] = entered
     for cname, fn in self.clauses('inside_'):
